@@ -1,5 +1,5 @@
 import BHS.Props.C15
-import BHS.Props.SqlShape
+import BHS.Props.SqlShape.Add
 import BHS.Props.ChainSvc
 open BHS.Props.C15
 #print axioms C15_add_is_exclusive
